@@ -15,8 +15,11 @@
 //!   * free next: additionally the leader's belief may start anywhere in 1..=last+1 and `Resend` steps
 //!     re-send from any earlier next_index (overlapping / pipelined resends). Requests stay
 //!     protocol-plausible (leader_commit <= leader last, leader term >= all terms, contiguous entries).
-//! Requests that would violate C08 (capped legacy entries + a new batch) are never generated: when the
-//! legacy part is capped the tick carries no new batch.
+//! Both scripts are judged. `StreamError` steps mirror `handle_peer_stream_error` (next_index :=
+//! match_index + 1; with lost acknowledgements that is below the follower's true match point), so the
+//! faithful script also re-sends capped batches inside the common prefix.
+//! Nothing is excluded: capped legacy + new batch ticks and prev=(0,0) requests are generated like any
+//! other (the old gap / reset defects would surface here as commit-beyond-follower-log).
 use std::collections::HashMap;
 use std::sync::Arc;
 
@@ -28,10 +31,6 @@ use serde::{Deserialize, Serialize};
 
 use super::logutil::{block_on, ent, payload_for, show, snapshot_of, Log, LogBox, Rep, Violations};
 use crate::runner::{fp, pick, Check, Outcome, Tier};
-
-/// Judge violations that need the free-next script (a request that ends below the follower's
-/// unverified tail). See the report: d-engine's own leader never produces such a request.
-const JUDGE_FREE_NEXT: bool = true;
 
 const PEER: u32 = 2;
 
@@ -46,6 +45,9 @@ pub enum Step {
     Deliver { which: u16, drop_resp: bool },
     /// free-next script only: re-send from an earlier next_index (no new batch).
     Resend { from: u16, commit_adv: u8 },
+    /// The replication stream to the follower broke: `handle_peer_stream_error` resets next_index to
+    /// match_index + 1; everything in flight is lost.
+    StreamError,
 }
 
 #[derive(Clone, Debug, Serialize, Deserialize, Hash)]
@@ -82,13 +84,13 @@ impl Check for C07 {
             "the follower commit index is whatever commit_index_update says (role_state::update_commit_index stores it unconditionally)".into(),
             "leader script is protocol-plausible: leader_commit <= leader last index and only advances onto an entry of the leader's term; leader term >= every term in both logs; follower's initial commit index <= common prefix; stale entries have (index,term) pairs the leader never had".into(),
             "faithful script mirrors leader_state.rs (speculative next_index advance, success: max(current, match+1), conflict: hint floored by match+1, stale-term responses ignored); next_index is clamped to last+1 (a larger value only arises from the success reply reporting the follower's own last log id, a different defect)".into(),
-            "gapped requests (C08) are excluded by construction: no new batch when the legacy part is capped".into(),
+            "a stream error resets next_index to match_index+1 and drops what is in flight (handle_peer_stream_error)".into(),
             "commit index <= follower last index is asserted from the doc comment of if_update_commit_index_as_follower (min(leader_commit, last_local_log_index))".into(),
         ]
     }
     fn cases(&self, tier: Tier) -> u32 {
         match tier {
-            Tier::Quick => 20_000,
+            Tier::Quick => 30_000,
             Tier::Thorough => 900_000,
         }
     }
@@ -100,6 +102,7 @@ impl Check for C07 {
             6 => (0u8..=3, 0u8..=4, prop_oneof![6 => Just(0u8), 1 => Just(1u8), 2 => Just(2u8), 2 => Just(3u8)]).prop_map(|(batch, commit_adv, deliver)| Step::Tick { batch, commit_adv, deliver }),
             2 => (any::<u16>(), prop_oneof![3 => Just(false), 1 => Just(true)]).prop_map(|(which, drop_resp)| Step::Deliver { which, drop_resp }),
             3 => (any::<u16>(), 0u8..=4).prop_map(|(from, commit_adv)| Step::Resend { from, commit_adv }),
+            2 => Just(Step::StreamError),
         ];
         (
             proptest::collection::vec(prop_oneof![4 => Just(0u8), 1 => Just(1u8)], 1..=40),
@@ -162,7 +165,6 @@ struct W {
     nontrivial: bool,
     truncation_point: Option<u64>,
     io_error: bool,
-    excluded: u64,
 }
 
 impl W {
@@ -182,14 +184,9 @@ impl W {
     async fn build(&mut self, next: u64, batch: u8) -> Option<AppendEntriesRequest> {
         let last_before = self.leader.last_entry_id();
         let lag = (last_before + 1).saturating_sub(next);
-        let batch = if lag > self.cap {
-            if batch > 0 {
-                self.labels.push("new_batch_suppressed_legacy_capped");
-            }
-            0
-        } else {
-            batch
-        };
+        if lag > self.cap && batch > 0 {
+            self.labels.push("legacy_capped_with_new_batch");
+        }
         let payloads: Vec<_> = (0..batch as u64).map(|j| payload_for(last_before + 1 + j, self.cur_term)).collect();
         let new_entries = match self.handler.generate_new_entries(payloads, self.cur_term, &self.leader).await {
             Ok(v) => v,
@@ -205,12 +202,6 @@ impl W {
         let data = ReplicationData { leader_last_index_before: last_before, current_term: self.cur_term, commit_index: self.lcommit, peer_next_indices: m };
         let mut per_peer = self.handler.prepare_peer_entries(&new_entries, &data, self.cap, &self.leader);
         let (_, req) = self.handler.build_append_request(&self.leader, PEER, &mut per_peer, &data);
-        // belt and braces: C07 only judges contiguous requests
-        let contiguous = req.entries.iter().enumerate().all(|(j, e)| e.index == req.prev_log_index + 1 + j as u64);
-        if !contiguous {
-            self.labels.push("non_contiguous_request_dropped");
-            return None;
-        }
         if lag > self.cap {
             self.labels.push("capped_batch");
         }
@@ -220,17 +211,6 @@ impl W {
     /// Follower processes `req`; the response reaches the leader unless `drop_resp`.
     async fn deliver(&mut self, req: AppendEntriesRequest, drop_resp: bool, sent_next: u64) {
         let before = snapshot_of(&self.follower);
-        // Exclusion (owned by C05 / C08:prev-zero-reset-discards-matching-entries): a prev=(0,0) request
-        // resets the follower log; when that would discard entries that agree with the leader above the
-        // request's end, the follower's commit index can end up above its log for that reason alone.
-        if req.prev_log_index == 0 && req.prev_log_term == 0 {
-            let end = req.entries.len() as u64;
-            if before.iter().any(|e| e.index > end && self.leader_model.get((e.index - 1) as usize) == Some(e)) {
-                self.labels.push("excluded_prev0_reset_discarding_matching_entries");
-                self.excluded += 1;
-                return;
-            }
-        }
         let snap = StateSnapshot { role: NodeRole::Follower as i32, current_term: self.fterm, voted_for: None, commit_index: self.fcommit };
         let resp = match self.handler.handle_append_entries(req.clone(), &snap, &self.follower).await {
             Ok(r) => r,
@@ -269,7 +249,7 @@ impl W {
                 }
             }
             if req.prev_log_index == 0 && req.prev_log_term == 0 && !before.is_empty() {
-                self.labels.push("prev0_reset_of_nonempty_follower");
+                self.labels.push("prev0_request_onto_nonempty_follower");
             }
         } else {
             self.labels.push("request_rejected");
@@ -313,11 +293,7 @@ impl W {
                     } else {
                         "C07:committed-entry-differs-inside-request-range"
                     };
-                    if self.free_next && !JUDGE_FREE_NEXT && sig == "C07:commit-min-uses-whole-follower-log" {
-                        self.labels.push("latent_stale_commit_not_judged");
-                    } else {
-                        self.viol.push(sig, format!("index {i} committed on the follower holds {}:t{} but the leader has {:?}; {ctx}", h.index, h.term, want.map(|e| (e.index, e.term))));
-                    }
+                    self.viol.push(sig, format!("index {i} committed on the follower holds {}:t{} but the leader has {:?}; {ctx}", h.index, h.term, want.map(|e| (e.index, e.term))));
                 }
             }
             break;
@@ -419,7 +395,6 @@ async fn run_case(c: &Case) -> Outcome {
         nontrivial: false,
         truncation_point: None,
         io_error: false,
-        excluded: 0,
     };
     let mut inflight: Vec<(AppendEntriesRequest, u64)> = vec![];
 
@@ -458,6 +433,11 @@ async fn run_case(c: &Case) -> Outcome {
                 w.labels.push("duplicate_or_reordered_delivery");
                 w.deliver(req, *drop_resp, sent_next).await;
             }
+            Step::StreamError => {
+                inflight.clear();
+                w.next = w.matched + 1;
+                w.labels.push("stream_error_next_reset_to_match_plus_one");
+            }
             Step::Resend { from, commit_adv } => {
                 if !c.free_next {
                     w.labels.push("skipped_step");
@@ -475,10 +455,7 @@ async fn run_case(c: &Case) -> Outcome {
 
     flb.close().await;
     llb.close().await;
-    let W { mut labels, trace, viol, nontrivial, io_error, excluded, .. } = w;
-    if excluded > 0 {
-        out.count("requests_excluded_prev0_reset", excluded);
-    }
+    let W { mut labels, trace, viol, nontrivial, io_error, .. } = w;
     if io_error {
         labels.push("io_error_no_verdict");
     }
